@@ -1,6 +1,6 @@
 """C18 — input parameters always hold a valid value, addressable by their
 dotted key; rejected operations change nothing."""
-from vf import common, shrink as shr
+from vf import common, shrink as shr, twothread
 
 common.use_repo()
 from pydsol.core.model import DSOLModel                     # noqa: E402
@@ -32,9 +32,9 @@ RULE = ("one case = a history of up to 60 operations on a parameter tree (depth 
         "rejected set_value or failed construction and at least one accepted set_value "
         "in a tree of >= 3 nodes; distinct = digest of the history")
 COMPONENTS = {"real": ["pydsol.core.parameters (all 8 classes)", "pydsol.core.model.DSOLModel"],
-              "stub": []}
+              "stub": ["threading.Thread.start / thread scheduling (baton scheduler, two-thread layer only)"]}
 ASSUMPTIONS = ["sizes are swarm-varied: about 1 % of the histories have 200 or 500 operations on trees of up to 120 nodes",
-               "weak fit: history + reference model, no scheduler or clock",
+               "weak fit for the single-caller layer (history + reference model, no scheduler or clock); the two-thread layer (8 % of the cases) judges only the state after both threads have finished",
                "bool values are not offered to int/float parameters (bool is an int subclass)",
                "removing an absent key is not generated (docstring and code disagree)"]
 
@@ -100,8 +100,76 @@ def invalid_default(rng, kind, spec):
     return s
 
 
+def init_worker():
+    import pydsol.core.parameters as _parmod
+    twothread.install(_parmod)
+
+
+def gen_threaded(rng, seed):
+    """Two caller threads: one constructs bounded parameters under a shared map,
+    the other looks each key up and tries to set an illegal value as soon as the
+    parameter is retrievable (seeded pre-emption inside parameters.py).  What
+    the second thread gets during the overlap is not judged; afterwards every
+    value must satisfy its declaration."""
+    params = []
+    for k in range(rng.randint(1, 3)):
+        kind = rng.choice(["int", "float", "quantity"])
+        params.append(["t%d" % k, kind, gen_spec(rng, kind)])
+    return {"threaded": True, "ops": [], "params": params, "polls": rng.choice([5, 20, 60]),
+            "how": [rng.choice(["out_of_bounds", "out_of_bounds", "other", "wrong_type"])
+                    for _ in params],
+            "sched": {"seed": seed, "p": rng.choice([0.05, 0.15, 0.3]),
+                      "d": rng.choice([4, 8, 20, 40])}}
+
+
+def run_threaded(case):
+    info = {"rejected": 0, "accepted_sets": 0, "nodes": 0, "ops": 0}
+    sim = DEVSSimulatorFloat("sim")
+    model = _Model(sim)
+    rootobj = model.input_parameters
+    objs = {}
+
+    def writer():
+        for key, kind, spec in case["params"]:
+            objs[key] = build(kind, spec, key, 1, False, rootobj)
+
+    def reader():
+        for _ in range(case["polls"]):
+            for (key, kind, spec), how in zip(case["params"], case["how"]):
+                v, _ok = choose_value(kind, spec, how, 0.25)
+                try:
+                    rootobj.get(key).set_value(v)
+                except Exception:       # not there yet / refused / half-built: not judged
+                    pass
+
+    init_worker()          # (idempotent; the shrinker evaluates in forks of the parent)
+    det, errors = twothread.run_two(case["sched"], writer, reader)
+    info["switches"] = det.n_switch
+    info["schedule"] = [det.ydigest, det.step, [list(d) for d in det.decisions]]
+    if det.aborted:
+        return ("harness", "two-thread run aborted: %s" % det.aborted), info
+    for who, name, msg in errors:
+        if who == "writer":
+            return ("valid-construction-rejected", "constructing parameters while another "
+                    "thread sets values raised %s: %s" % (name, msg)), info
+    for key, kind, spec in case["params"]:
+        info["nodes"] += 1
+        o = objs.get(key)
+        if o is None or rootobj.get(key) is not o:
+            return ("lookup", "parameter %r constructed by one thread is not retrievable "
+                    "afterwards" % key), info
+        if not valid(kind, spec, o.value):
+            return ("invalid-value", "one thread constructed %s parameter %r (%s) while another "
+                    "tried to set illegal values through the map (%d thread switches inside "
+                    "parameters.py); afterwards it holds %r, which violates its declaration"
+                    % (kind, key, spec, det.n_switch, o.value)), info
+    return None, info
+
+
 def generate(seed, tier, idx=0):
     rng = common.rng_for(seed, "case")
+    if rng.random() < 0.08:
+        return gen_threaded(rng, seed)
     n = rng.choice([3, 5, 8, 12, 20, 30, 45, 60])
     big = rng.random() < 0.01
     if big:
@@ -555,15 +623,18 @@ def run(case):
 
 
 def execute(case):
-    f, info = run(case)
-    res = {"clean": True, "digest": common.digest([case, f and f[0]]),
+    f, info = run_threaded(case) if case.get("threaded") else run(case)
+    res = {"clean": f is None or f[0] != "harness",
+           "digest": common.digest([case, f and f[0], info.get("schedule")]),
            "counters": {"ops": info["ops"], "fault:rejected_input": info["rejected"],
+                        "layer:two_threads": 1 if case.get("threaded") else 0,
+                        "fault:preempt": info.get("switches", 0),
                         "accepted_sets": info["accepted_sets"], "nodes": info["nodes"]},
            "nontrivial": info["rejected"] >= 1 and info["accepted_sets"] >= 1
            and info["nodes"] >= 3,
            "case_digest": common.digest8(case)}
     if f:
-        res["status"] = "violation"
+        res["status"] = "harness" if f[0] == "harness" else "violation"
         res["check_id"], res["message"] = f
     else:
         res["status"] = "ok"
@@ -575,5 +646,10 @@ def case_size(case):
 
 
 def shrink(case, fails):
-    ops = shr.ddmin(case["ops"], lambda o: fails({"ops": o}))
-    return {"ops": ops}
+    if case.get("threaded"):
+        params = shr.one_by_one(list(zip(case["params"], case["how"])),
+                                lambda ph: len(ph) > 0 and fails(dict(
+                                    case, params=[p for p, h in ph], how=[h for p, h in ph])))
+        return dict(case, params=[p for p, h in params], how=[h for p, h in params])
+    ops = shr.ddmin(case["ops"], lambda o: fails(dict(case, ops=o)))
+    return dict(case, ops=ops)
